@@ -1,7 +1,7 @@
 (* C01 - property theorems (statements only; the proofs live in Acme.C01.ProofsXxx / Acme.C07.ProofsXxx). *)
 From Coq Require Import ZArith List Sorted.
 From Acme.C01 Require Import Layout State Model ProofsLayout ProofsInv Refuted ProofsT1 ProofsSpec ProofsFrame ProofsAccept Examples.
-From Acme.C07 Require Import Proofs ProofsReg ProofsFinal.
+From Acme.C07 Require Import Proofs ProofsReg ProofsFinal ProofsEffect.
 Open Scope Z_scope.
 
 (* the boolean predicate evaluated on the implementation's snapshots is the declarative one *)
@@ -224,3 +224,39 @@ Theorem frame_order : forall s o L y z, InvA s -> InvM s -> InvR s -> ok_op_f s 
   (rel s y < rel s z <-> rel (fst (step s o)) y < rel (fst (step s o)) z).
 Proof. exact frame_order_f. Qed.
 Print Assumptions frame_order.
+
+(* Effect of an accepted attach / detach at message level: the post-state view is the pre-state view with the
+   signal at the requested position (InsertSignal) / at the end (AppendSignal) / without it (RemoveSignal);
+   no other position, size, message layout or multiplexer group changes. *)
+Theorem insert_effect : forall s m x b, is_ok (snd (step_insert s m x b)) ->
+  let s' := fst (step_insert s m x b) in
+  rel s' x = b
+  /\ (forall y, y <> x -> rel s' y = rel s y)
+  /\ (forall y, sz s' y = sz s y)
+  /\ (forall y, In y (glay s' m) <-> y = x \/ In y (glay s m))
+  /\ (forall m', m' <> m -> glay s' m' = glay s m')
+  /\ ugroups s' = ugroups s
+  /\ (~ In x (glay s m) ->
+      forall it, In it (msg_view s' m) <-> it = (x, b, sz s x) \/ In it (msg_view s m)).
+Proof. exact ProofsEffect.insert_effect. Qed.
+Print Assumptions insert_effect.
+
+Theorem append_effect : forall s m x, is_ok (snd (step_append s m x)) ->
+  let s' := fst (step_append s m x) in
+  rel s' x = last_end (sz s) (rel s) (glay s m)
+  /\ (forall y, y <> x -> rel s' y = rel s y)
+  /\ (forall y, sz s' y = sz s y)
+  /\ glay s' m = (glay s m ++ x :: nil)%list
+  /\ (forall m', m' <> m -> glay s' m' = glay s m')
+  /\ ugroups s' = ugroups s.
+Proof. exact ProofsEffect.append_effect. Qed.
+Print Assumptions append_effect.
+
+Theorem remove_effect : forall s m x, pmux s x = None -> is_ok (snd (step_remove s m x)) ->
+  let s' := fst (step_remove s m x) in
+  rel s' = rel s
+  /\ (forall y, In y (glay s' m) <-> In y (glay s m) /\ y <> x)
+  /\ (forall m', m' <> m -> glay s' m' = glay s m')
+  /\ ugroups s' = ugroups s.
+Proof. exact ProofsEffect.remove_effect. Qed.
+Print Assumptions remove_effect.
